@@ -3,7 +3,7 @@
    with the executable SHA-256 of Base/Sha256.v. *)
 From Coq Require Import NArith ZArith List.
 From PTQ Require Import Base.Result Base.Bytes Base.Bits Base.Sha256 Model.Cell Spec.CellRepr Spec.CellWf Model.Inst
-  Proofs.CellOrd Spec.MerkleProof Proofs.HashInjective.
+  Proofs.CellOrd Spec.MerkleProof Proofs.HashInjective Proofs.CellReprAll.
 Import ListNotations.
 Local Open Scope N_scope.
 
@@ -32,6 +32,26 @@ Theorem C01_repr_agrees : forall c k, wf_ord c = true -> build sha256 c = Ok k -
   calculate_representation_hash sha256 k = Ok (k_hash k).
 Proof. exact (ord_repr_agrees sha256 sha256_len). Qed.
 Print Assumptions C01_repr_agrees.
+
+(* ... and this holds beyond ordinary trees: for every constructed cell of a spec-valid tree of ordinary, pruned-branch,
+   library, Merkle-proof and Merkle-update cells, whatever its level (an ordinary cell above a pruned branch has one hash
+   per significant level, each chained on the previous one; the recomputation takes the previous hash as payload) *)
+Theorem C01_repr_agrees_all : forall c k, wf_exotic c = true -> build sha256 c = Ok k ->
+  calculate_representation_hash sha256 k = Ok (k_hash k).
+Proof. exact (repr_agrees_all sha256). Qed.
+Print Assumptions C01_repr_agrees_all.
+
+(* non-vacuity: an ordinary cell of level 1 (two hashes) above a mask-1 pruned branch *)
+Example C01_repr_agrees_all_example :
+  let t := Cell (-1) [true] [] in
+  let p := s_prune sha256 0 t in
+  let body := Cell (-1) [false; true] [p; Cell (-1) [] []] in
+  wf_exotic body = true /\ s_mask body = 1 /\
+  match build sha256 body with
+  | Ok k => length (k_hashes k) = 2%nat /\ calculate_representation_hash sha256 k = Ok (k_hash k)
+  | Err _ => False
+  end.
+Proof. vm_compute. repeat split; reflexivity. Qed.
 
 (* the data bytes hashed are the data padded with the completion tag, for every bit length *)
 Theorem C01_padding : forall bits, data_bytes bits = bits_to_bytes (s_pad bits).
